@@ -465,6 +465,127 @@ fn run(sc: &Scenario, seed: u64) -> Option<Obs> {
     })
 }
 
+// ------------------------------------------------------------------ scripted attacker server
+
+use vh::dtls_attacker::{ScriptedServer, Step};
+
+fn scripts() -> Vec<(&'static str, Vec<Step>)> {
+    let b = sim::certs().b.certificate[0].clone();
+    let x = sim::certs().x.certificate[0].clone();
+    let c = |v: Vec<&Vec<u8>>| Step::Certificate(v.into_iter().cloned().collect());
+    vec![
+        ("X", vec![c(vec![&x]), Step::KeyExchange]),
+        ("B,X", vec![c(vec![&b]), c(vec![&x]), Step::KeyExchange]),
+        ("X,B", vec![c(vec![&x]), c(vec![&b]), Step::KeyExchange]),
+        ("B", vec![c(vec![&b]), Step::KeyExchange]),
+        ("B,KE,X", vec![c(vec![&b]), Step::KeyExchange, c(vec![&x])]),
+        ("X,KE,B", vec![c(vec![&x]), Step::KeyExchange, c(vec![&b])]),
+        ("KE,B", vec![Step::KeyExchange, c(vec![&b])]),
+        ("KE,X", vec![Step::KeyExchange, c(vec![&x])]),
+        ("[B+X]", vec![c(vec![&b, &x]), Step::KeyExchange]),
+        ("[X+B]", vec![c(vec![&x, &b]), Step::KeyExchange]),
+        ("B,B,X", vec![c(vec![&b]), c(vec![&b]), c(vec![&x]), Step::KeyExchange]),
+        ("B,X,B,X", vec![c(vec![&b]), c(vec![&x]), c(vec![&b]), c(vec![&x]), Step::KeyExchange]),
+        ("X,X", vec![c(vec![&x]), c(vec![&x]), Step::KeyExchange]),
+        ("none", vec![Step::KeyExchange]),
+        ("B,[]", vec![c(vec![&b]), Step::Certificate(vec![]), Step::KeyExchange]),
+        ("[],X", vec![Step::Certificate(vec![]), c(vec![&x]), Step::KeyExchange]),
+        ("B,KE,KE", vec![c(vec![&b]), Step::KeyExchange, Step::KeyExchange]),
+    ]
+}
+
+#[derive(Clone, Debug, Default, PartialEq)]
+struct SObs {
+    state: String,
+    exporter_ok: bool,
+    app_rx: usize,
+    server_finished_sent: bool,
+    end_ms: u64,
+}
+
+/// A real client A (expecting `fp`) against the scripted attacker server standing at B's address.
+fn run_scripted(script: &[Step], fp: Fp, seed: u64) -> Option<SObs> {
+    let script = script.to_vec();
+    sim::run_with_watchdog(seed, Duration::from_secs(30), move || {
+        Box::pin(async move {
+            let start = tokio::time::Instant::now();
+            let (net_tx, mut net_rx) = tokio::sync::mpsc::unbounded_channel();
+            let certs = sim::certs();
+            let cfg_a = EndCfg { with_sctp: false, channels: vec![], expected_fingerprint: fp_of(fp, &certs.b), rtc: sim::default_rtc() };
+            let mut a = sim::mk_end(Side::A, certs.a.clone(), net_tx.clone(), &cfg_a).await;
+            drop(net_tx);
+            let mut srv = ScriptedServer::new(&certs.x.private_key, script);
+            let mut buf = Vec::new();
+            let mut quiet: Option<u64> = None;
+            loop {
+                let now = now_ms(start);
+                if now >= 37_000 {
+                    break;
+                }
+                match sim::next_dgram(&mut net_rx, Duration::from_millis(250)).await {
+                    Some(d) => {
+                        quiet = None;
+                        for out in srv.on_datagram(&d.data) {
+                            use rustrtc::transports::PacketReceiver;
+                            a.conn.receive(Bytes::from(out), sim::addr(sim::ADDR_B), &mut buf).await;
+                        }
+                    }
+                    None => {
+                        if matches!(a.dtls.get_state(), DtlsState::Connected(_, _) | DtlsState::Failed) {
+                            match quiet {
+                                None => quiet = Some(now),
+                                Some(q) if now >= q + 2500 => break,
+                                _ => {}
+                            }
+                        }
+                    }
+                }
+            }
+            let mut o = SObs::default();
+            o.state = sim::state_name(&a.dtls.get_state()).to_string();
+            o.exporter_ok = a.dtls.export_keying_material("EXTRACTOR-dtls_srtp", 60).is_ok();
+            if let Some(rx) = a.app_rx.as_mut() {
+                while rx.try_recv().is_ok() {
+                    o.app_rx += 1;
+                }
+            }
+            o.server_finished_sent = srv.finished_sent;
+            o.end_ms = now_ms(start);
+            for h in a.tasks.drain(..) {
+                h.abort();
+            }
+            o
+        })
+    })
+}
+
+fn judge_scripted(name: &str, script: &[Step], fp: Fp, o: &SObs) -> Vec<(String, String)> {
+    let mut out = vec![];
+    if fp == Fp::Absent {
+        return out;
+    }
+    let x = &sim::certs().x.certificate[0];
+    // the attacker only holds X's key: the handshake is authentic only if the client expects X and X is
+    // the only certificate ever presented (as the single leaf)
+    let presented: Vec<&Vec<Vec<u8>>> = script.iter().filter_map(|s| if let Step::Certificate(c) = s { Some(c) } else { None }).collect();
+    let authentic = fp == Fp::Wrong && !presented.is_empty() && presented.iter().all(|c| c.first() == Some(x)) && script.iter().position(|s| *s == Step::KeyExchange) > script.iter().position(|s| matches!(s, Step::Certificate(_)));
+    if o.state == "Connected" && !authentic {
+        out.push((format!("role=client;connected_to_unauthenticated_peer;fp={fp:?};server-script={name}"), format!("client reached Connected against a server that only holds the attacker's key (script {name}); exporter_ok={}, application payloads accepted={}", o.exporter_ok, o.app_rx)));
+    }
+    if o.state != "Connected" {
+        if o.state != "Failed" {
+            out.push((format!("role=client;not_failed({});fp={fp:?};server-script={name}", o.state), format!("after {} virtual ms", o.end_ms)));
+        }
+        if o.app_rx > 0 {
+            out.push((format!("role=client;app_data_accepted_without_connection;server-script={name}"), format!("{} payloads", o.app_rx)));
+        }
+        if o.exporter_ok {
+            out.push((format!("role=client;keying_material_exported_without_connection;server-script={name}"), String::new()));
+        }
+    }
+    out
+}
+
 fn ops_name(ops: &[Op]) -> String {
     ops.iter().map(|o| format!("{o:?}")).collect::<Vec<_>>().join("+")
 }
@@ -538,6 +659,19 @@ fn main() {
     let thorough = cli.tier == vh::Tier::Thorough;
     if let Some(path) = &cli.replay {
         let v: serde_json::Value = serde_json::from_str(&std::fs::read_to_string(path).unwrap_or_else(|e| vh::machinery_failure(&format!("{e}")))).unwrap();
+        if let Some(name) = v["replay"]["scripted"].as_str() {
+            let list = scripts();
+            let (_, script) = list.iter().find(|(n, _)| *n == name).unwrap_or_else(|| vh::machinery_failure("unknown script"));
+            let fp = match v["replay"]["fp_client_expects"].as_str().unwrap_or("") {
+                "Correct" => Fp::Correct,
+                "Absent" => Fp::Absent,
+                _ => Fp::Wrong,
+            };
+            let o = run_scripted(script, fp, cli.seed);
+            let vs = o.as_ref().map(|o| judge_scripted(name, script, fp, o));
+            println!("{o:?}\n verdicts={vs:?}");
+            std::process::exit(if vs.map_or(true, |v| !v.is_empty()) { 1 } else { 0 });
+        }
         let sc = sc_from(&v["replay"]);
         let mut bad = false;
         for round in 0..2 {
@@ -613,7 +747,31 @@ fn main() {
             rep.sample(json!({"scenario": sc_json(sc), "states": o.state, "keys_equal": o.keys_equal, "messages_tampered": o.tampered, "virtual_ms": o.end_ms}));
         }
     }
-    let total = scenarios.len() as u64;
+    // scripted attacker server: every script x expected fingerprint
+    let sc_list = scripts();
+    let sc_cases: Vec<(usize, Fp)> = (0..sc_list.len()).flat_map(|i| fps.iter().map(move |f| (i, *f))).collect();
+    let sc_results: Vec<((usize, Fp), Option<SObs>)> = sc_cases.par_iter().map(|c| (*c, run_scripted(&sc_list[c.0].1, c.1, cli.seed))).collect();
+    let mut control_connected = false;
+    for ((i, fp), o) in &sc_results {
+        let (name, script) = &sc_list[*i];
+        let replay = json!({"scripted": name, "fp_client_expects": format!("{fp:?}")});
+        let Some(o) = o else {
+            rep.violation(vh::Violation { signature: format!("livelock;server-script={name}"), detail: "watchdog fired".into(), replay });
+            continue;
+        };
+        if *name == "X" && *fp == Fp::Wrong && o.state == "Connected" && o.app_rx == 1 {
+            control_connected = true;
+        }
+        outcomes.insert(format!("scripted|{}|{}|{}", o.state, o.exporter_ok, o.app_rx));
+        for (sig, detail) in judge_scripted(name, script, *fp, o) {
+            rep.violation(vh::Violation { signature: sig, detail, replay: replay.clone() });
+        }
+    }
+    if !control_connected {
+        vh::machinery_failure("scripted attacker self-test failed: a client expecting the attacker's own fingerprint did not connect to it");
+    }
+    rep.set("scripted_server_histories", sc_cases.len() as u64);
+    let total = scenarios.len() as u64 + sc_cases.len() as u64;
     rep.set("states", total);
     rep.set("transitions", results.iter().map(|(_, o)| o.as_ref().map(|o| o.tampered as u64 + 1).unwrap_or(0)).sum::<u64>());
     rep.set("traces_validated_against_impl", total);
@@ -623,7 +781,7 @@ fn main() {
     rep.set("histories_where_tampering_prevented_connection", effective);
     rep.set("histories_both_connected", connected_authentic);
     rep.set("exhaustive", true);
-    rep.set("rule", "every tamper op of the catalogue (certificate replaced by attacker's / empty / attacker+genuine / genuine+attacker / truncated DER; ECDH key replaced keeping or re-signing the signature; attacker certificate with re-signed key exchange; signature bit flip / empty / garbage; curve altered; either random replaced; Certificate / ServerKeyExchange / ServerHelloDone / both omitted; Certificate and ServerKeyExchange swapped; ServerHello replayed; extensions stripped from either hello; cipher suite altered; full MITM with attacker endpoints on both legs, presenting its own or the genuine server's certificate), applied to every matching message incl. retransmissions, x expected fingerprint {correct, absent, wrong} on each side (thorough: all pairs of ops); each history runs two real DtlsTransports to the 30 s handshake deadline in virtual time; oracle: a side holding Some(fingerprint) is Connected only if the fingerprinted peer completed this handshake with identical keys and was shown as leaf certificate, else it ends Failed with no application data and no exporter; distinct_nontrivial = distinct (states, keys_equal, app data) outcomes");
+    rep.set("rule", "every tamper op of the catalogue (certificate replaced by attacker's / empty / attacker+genuine / genuine+attacker / truncated DER; ECDH key replaced keeping or re-signing the signature; attacker certificate with re-signed key exchange; signature bit flip / empty / garbage; curve altered; either random replaced; Certificate / ServerKeyExchange / ServerHelloDone / both omitted; Certificate and ServerKeyExchange swapped; ServerHello replayed; extensions stripped from either hello; cipher suite altered; full MITM with attacker endpoints on both legs, presenting its own or the genuine server's certificate), plus a hand-written scripted attacker server sending every listed sequence of Certificate messages / chains around its key exchange (17 scripts), applied to every matching message incl. retransmissions, x expected fingerprint {correct, absent, wrong} on each side (thorough: all pairs of ops); each history runs two real DtlsTransports to the 30 s handshake deadline in virtual time; oracle: a side holding Some(fingerprint) is Connected only if the fingerprinted peer completed this handshake with identical keys and was shown as leaf certificate, else it ends Failed with no application data and no exporter; distinct_nontrivial = distinct (states, keys_equal, app data) outcomes");
     rep.assume("cryptographic primitives are trusted; the attacker cannot forge ECDSA signatures or GCM tags; certificates are P-256 only");
     if outcomes.len() < 2 {
         vh::machinery_failure("vacuous: every history had the same outcome");
